@@ -27,11 +27,17 @@ def scenario(case, i):
 
 def run(tier, seed, t0):
     vlib.build_harness()
-    cases, info = vlib.gen_cases("GEN_Adv", "GEN_Adv.cfg" if tier == "quick" else "GEN_Adv_4.cfg", timeout=1800, xmx="8g")
-    mc = [info]
     if tier == "quick":
-        # every sequence of length <= 2, every third of length 3
+        cases, info = vlib.gen_cases("GEN_Adv", "GEN_Adv.cfg", timeout=1800, xmx="8g")
+        # from the idle base: every sequence of length <= 2, every third of length 3
         cases = [c for i, c in enumerate(cases) if len(c) <= 2 or i % 3 == seed % 3]
+        # from the collector states "after Deliver / after the header / mid-body": every sequence <= 2
+        cases2, info2 = vlib.gen_cases("GEN_Adv", "GEN_Adv_bases.cfg", timeout=1800, xmx="8g")
+        cases += cases2
+        mc = [info, info2]
+    else:
+        cases, info = vlib.gen_cases("GEN_Adv", "GEN_Adv_4.cfg", timeout=2400, xmx="12g")
+        mc = [info]
     scn = [scenario(c, i) for i, c in enumerate(cases)]
     files, summ = vlib.run_sessions(PROP, scn, tier, hang_ms=5000 if tier == "quick" else 20000)
     consumed, bad = vlib.validate_traces("ConnTrace", "ConnTrace.cfg", files, timeout=3000, xmx="4g")
@@ -52,7 +58,8 @@ def run(tier, seed, t0):
              "client (as one burst, frame by frame, and frame by frame with the I/O thread settling in between), followed "
              "by calls on both channels, a consumer drain and Connection::close. distinct/non-trivial = distinct frame "
              "sequences (%s)" % (3 if tier == "quick" else 4,
-                                 "all of length <= 2, a third of length 3" if tier == "quick" else "all"),
+                                 "idle base: all of length <= 2 and a third of length 3; bases after Deliver / after the "
+                                 "header / mid-body: all of length <= 2" if tier == "quick" else "all, from all four bases"),
         samples=[s["frames"] for s in scn[50:53]], verdict=v, exhaustive=(tier == "thorough"),
         extra={"trace_records_validated": consumed, "sessions_hung": summ["hung"],
                "sessions_with_panics": summ["with_panics"], "process_aborts": len(summ["aborted"]),
